@@ -63,6 +63,11 @@ def constraint_census(c, facts):
 
 def run(c, facts):
     import c09
+    import c05
+    c.run(lambda c: c05.r7_var_uniform(c, facts, rule='C07.R12'))
+    import c08
+    R11 = c.rule('C07.R11', 'SHADOWING: a binder shadows outer names whatever it is called, so the verdict does not depend on the spelling of bound names (shared with C08.R1)')
+    c.shared(R11, c08.r1_innermost, 'C08.R1', facts)
     R10 = c.rule('C07.R10', 'CYCLE-VERDICT: the recursion verdict is a fix-point over the whole graph, independent of the order of declarations (shared with C09.R3)')
     c.shared(R10, c09.r3_cut_agree, 'C09.R3', facts)
     c.run(lambda c: I.tag_rec(c, facts, c.rule('C07.R1', 'TAG-REC: recursive functions over Tag cover every variant that nests tags')))
